@@ -113,7 +113,7 @@ class RayMeshIntersector:
         ray_origins,
         ray_directions,
         multiple_hits=True,
-        max_hits=20,
+        max_hits=None,
         return_locations=False,
     ):
         """
@@ -130,8 +130,9 @@ class RayMeshIntersector:
         multiple_hits : bool
           If True will return every hit along the ray
           If False will only return first hit
-        max_hits : int
-          Maximum number of hits per ray
+        max_hits : int or None
+          Maximum number of hits per ray, by default
+          as many as the mesh has faces
         return_locations : bool
           Should we return hit locations or not
 
@@ -159,6 +160,12 @@ class RayMeshIntersector:
 
         # the mask for which rays are still active
         current = np.ones(len(ray_origins), dtype=bool)
+        if max_hits is None:
+            # a ray can not cross more triangles than the mesh has
+            max_hits = max(len(self.mesh.faces), 1)
+        # the triangle each ray reported last: a ray that reports the
+        # triangle it has just left is stuck and is retired
+        last = np.full(len(ray_origins), -1, dtype=np.int64)
 
         if multiple_hits or return_locations:
             # how much to offset ray to transport to the other side of face
@@ -182,12 +189,13 @@ class RayMeshIntersector:
             query = self._scene.run(ray_origins[current], ray_directions[current])
             # basically we need to reduce the rays to the ones that hit
             # something
-            hit = query != -1
+            current_index = np.nonzero(current)[0]
+            hit = np.logical_and(query != -1, query != last[current_index])
             # which triangle indexes were hit
             hit_triangle = query[hit]
+            last[current_index[hit]] = hit_triangle
 
             # eliminate rays that didn't hit anything from future queries
-            current_index = np.nonzero(current)[0]
             current_index_no_hit = current_index[np.logical_not(hit)]
             current_index_hit = current_index[hit]
             current[current_index_no_hit] = False
